@@ -48,6 +48,7 @@ EXPECTED_FAULTS = {"C12": ["abandon", "leak", "callback_raise", "deadline", "pre
                            "hashseed", "fresh_process"]}
 DETERMINISM_SAMPLE = {"quick": 3, "thorough": 8}
 EXHAUSTIVE = {}
+MIN_CASES = {'quick': 300, 'thorough': 5000}
 
 _M = {}
 
@@ -226,13 +227,20 @@ class World:
                           % where)
         elif kind == "OPEN":
             e = op["e"]
-            g = lib["ctparse"].ctparse_gen(pool[e]["text"], **entries.kwargs(lib, pool[e]))
-            self.handles[op["h"]] = [g, e, 0]
+            kw = entries.kwargs(lib, pool[e])
+            if op.get("timeout"):
+                kw["timeout"] = op["timeout"]      # virtual seconds on the case's clock
+            g = lib["ctparse"].ctparse_gen(pool[e]["text"], **kw)
+            self.handles[op["h"]] = [g, e, 0, bool(op.get("timeout"))]
+        elif kind == "ADVANCE":
+            # (virtual) time passes while every open stream is suspended
+            self.clock.now += op["by"]
+            self.stats["faults"]["deadline"] += 1
         elif kind == "STEP":
             h = self.handles.get(op["h"])
             if h is None:
                 return
-            g, e, n = h
+            g, e, n, timed = h
             want = self.ref(e, "gen")
             self.stats["n_eval"] += 1
             try:
@@ -248,7 +256,10 @@ class World:
                 h[2] = n + 1
             except StopIteration:
                 self.obs.append([i, "STEP", e, n, "end"])
-                if "stream" not in want or n != len(want["stream"]):
+                if timed:
+                    # a stream with its own (positive) timeout may end anywhere: a prefix
+                    pass
+                elif "stream" not in want or n != len(want["stream"]):
                     self.viol("C12.history", "stream-length-differs-from-fresh-process",
                               "%s: stream of entry %r ended after %d candidates, a fresh "
                               "process yields %s" % (where, pool[e], n,
@@ -326,6 +337,11 @@ def _exec_ops(lib, case, ops, V, stats):
     import signal
     w = World(lib, case, V, stats)
     before = state_digest(lib)
+    # one virtual monotonic clock for the whole history: streams opened with a positive
+    # timeout, ADVANCE ops and deadline-cut calls all live on it
+    w.clock = VirtualMonotonic([])
+    saved_clock = lib["timers"].perf_counter
+    lib["timers"].perf_counter = w.clock
     old_handler = signal.signal(signal.SIGALRM, _alarm)
     for i, op in enumerate(ops):
         # bounded liveness: a step that blocks (e.g. on a lock still held by a suspended
@@ -340,6 +356,7 @@ def _exec_ops(lib, case, ops, V, stats):
                    % (i, json.dumps(op), STEP_WALL_S))
             signal.setitimer(signal.ITIMER_REAL, 0)
             signal.signal(signal.SIGALRM, old_handler)
+            lib["timers"].perf_counter = saved_clock
             return w.obs
         finally:
             signal.setitimer(signal.ITIMER_REAL, 0)
@@ -350,6 +367,7 @@ def _exec_ops(lib, case, ops, V, stats):
                        "part-of-day table changed" % (i, json.dumps(op)))
                 before = state_digest(lib)
     signal.signal(signal.SIGALRM, old_handler)
+    lib["timers"].perf_counter = saved_clock
     for h in list(w.handles.values()):
         h[0].close()
     w.handles.clear()
@@ -523,6 +541,10 @@ def execute(case):
 # --------------------------------------------------------------------------
 # planning
 # --------------------------------------------------------------------------
+_RELDAY_WORDS = {"today", "heute", "tomorrow", "morgen", "tmrw", "übermorgen", "yesterday",
+                 "gestern", "vorgestern"}
+
+
 def _variants(rng, t):
     """Texts *related* to t: the same tokens in another order, the same weekday / part of day
     in another surface form or at another offset, a prefix in front. Calls that share tokens
@@ -604,7 +626,10 @@ def _client_script(rng, c, n_entries, handle_base):
         if r < 0.3:
             ops.append({"op": "CALL", "e": e, "c": c})
         elif r < 0.75:
-            ops.append({"op": "OPEN", "h": h, "e": e, "c": c})
+            o = {"op": "OPEN", "h": h, "e": e, "c": c}
+            if rng.random() < 0.25:
+                o["timeout"] = rng.choice([5, 20, 80, 300, 1000])
+            ops.append(o)
             k = rng.choice([1, 2, 3, 5, 8, 40])
             for _ in range(k):
                 ops.append({"op": "STEP", "h": h, "c": c})
@@ -640,6 +665,8 @@ def _interleave(rng, scripts):
             live.remove(i)
         if rng.random() < 0.05:
             out.append({"op": "GC"})
+        if rng.random() < 0.06:
+            out.append({"op": "ADVANCE", "by": rng.choice([10, 100, 1000, 1e6])})
     return out
 
 
@@ -659,13 +686,45 @@ def plan(prop, tier, seed):
 
     def draw_pool(r, lo, hi):
         k = r.randint(lo, hi)
-        if fam_list and r.random() < 0.6:
+        if fam_list and r.random() < 0.75:
             f = r.choice(fam_list)
             pool = list(f[:k])
+            relday = [e_ for e_ in pool
+                      if any(w_ in e_["text"].lower().split() for w_ in _RELDAY_WORDS)]
+            if relday and r.random() < 0.5:
+                # a relative-day text under the same INSTANT written in two zones whose local
+                # dates differ (aware reference times compare and hash by instant)
+                from datetime import timedelta as _td, timezone as _tz
+                base_ = workload.ref_time(r, 2016, 2043).replace(
+                    hour=23, minute=r.choice([5, 30, 55]), second=0, microsecond=0)
+                a = base_.replace(tzinfo=_tz.utc)
+                b = a.astimezone(_tz(_td(hours=r.choice([1, 2, 5, -10]))))
+                e1, e2 = dict(relday[0]), dict(relday[0])
+                e1["ts"], e2["ts"] = fmt_ts(a), fmt_ts(b)
+                pool = [e1, e2] + pool[: max(0, k - 2)]
             # the same text under another reference time / option set is "related" too
-            if len(pool) < k and r.random() < 0.5:
+            if r.random() < 0.7:
                 e = dict(r.choice(pool))
-                e["ts"] = fmt_ts(workload.ref_time(r, 2016, 2043))
+                v = r.random()
+                if v < 0.4:
+                    e["ts"] = fmt_ts(workload.ref_time(r, 2016, 2043))
+                elif v < 0.7:
+                    # the same text under another scorer
+                    e["scorer"] = r.choice(["dummy", "shipped_explicit", None,
+                                            ["random", r.randrange(1000)]])
+                    if e["scorer"] is None:
+                        e.pop("scorer")
+                else:
+                    # the same INSTANT written in two zones whose local dates differ
+                    from datetime import datetime as _dt, timedelta as _td, timezone as _tz
+                    base_ = workload.ref_time(r, 2016, 2043).replace(
+                        hour=23, minute=r.choice([5, 30, 55]), second=0, microsecond=0)
+                    a = base_.replace(tzinfo=_tz.utc)
+                    b = a.astimezone(_tz(_td(hours=r.choice([1, 2, 5, -10]))))
+                    e["ts"] = fmt_ts(a)
+                    e2 = dict(e)
+                    e2["ts"] = fmt_ts(b)
+                    pool.append(e2)
                 pool.append(e)
             while len(pool) < min(k, 2):
                 pool.append(r.choice(big_pool))
@@ -682,6 +741,34 @@ def plan(prop, tier, seed):
             if r.random() < 0.08:
                 ops[j] = dict(ops[j], checkpoint=True)
         cases.append({"kind": "task", "pool": pool, "ops": ops, "hashseeds": hashseeds})
+    # -- overlap scenarios: a stream suspended after a few candidates while the SAME text is
+    #    parsed under another scorer / reference time / option set, then drained
+    for i in range(80 if quick else 1500):
+        r = core.stream(core.derive_seed(base, "overlap", i), "sched")
+        e = dict(r.choice(big_pool))
+        e.pop("fam", None)
+        e2 = dict(e)
+        v = r.random()
+        if v < 0.5:
+            e2["scorer"] = r.choice([s_ for s_ in ("dummy", "shipped_explicit",
+                                                   ["random", r.randrange(1000)])
+                                     if s_ != e.get("scorer")])
+        elif v < 0.75:
+            e2["ts"] = fmt_ts(workload.ref_time(r, 2016, 2043))
+        else:
+            e2["max_stack_depth"] = r.choice([1, 3, 10])
+            e2["latent_time"] = not e.get("latent_time", True)
+        ops = [{"op": "OPEN", "h": 0, "e": 0, "c": 0}]
+        ops += [{"op": "STEP", "h": 0, "c": 0}] * r.randint(1, 3)
+        if r.random() < 0.5:
+            ops.append({"op": "CALL", "e": 1, "c": 1})
+        else:
+            ops.append({"op": "OPEN", "h": 1, "e": 1, "c": 1})
+            ops += [{"op": "STEP", "h": 1, "c": 1}] * r.randint(1, 4)
+        ops += [{"op": "STEP", "h": 0, "c": 0}] * 60
+        ops += [{"op": "STEP", "h": 1, "c": 1}] * 60
+        ops.append({"op": "CALL", "e": r.randrange(2), "c": 1, "checkpoint": True})
+        cases.append({"kind": "task", "pool": [e, e2], "ops": ops, "hashseeds": hashseeds})
     # -- all interleavings of two short streams: needs stream lengths -> uses the table
     short_entries = []
     with ThreadPoolExecutor(max_workers=min(16, os.cpu_count() or 1)) as ex:
